@@ -1,5 +1,6 @@
 import LekkerVerif.Core.HierSolve
 import LekkerVerif.Model.Params
+import LekkerVerif.Model.Sweep
 /-! Parametric hierarchies end to end (core Lean only): `Solver.solve(**kw)` of a hierarchy whose leaves are affine probe
 blocks `S(p) = S0 + p * S1`.
 
@@ -50,6 +51,16 @@ end
 /-- `top.solve(**kw)` -/
 def psolve (sched : List (St F) → Option (Nat × Nat)) (kw : Dict F) (t : PNet F) : Except Err (CompD F) :=
   HNet.solveH sched (inst kw t)
+
+/-- `top.solve(**kw)` with array-valued parameters: the lengths are normalised as `Solver.solve` does (`Sweep.normalise`: all
+lengths other than 1 must agree, otherwise the call is rejected - `none`), values of length 1 are broadcast (`Sweep.bcast`), and
+point `i` of the result is the scalar solve at the `i`-th values (what C04 demands of the batched computation of the code) -/
+def psweep (sched : List (St F) → Option (Nat × Nat)) (kw : List (String × List F)) (t : PNet F) :
+    Option (List (Except Err (CompD F))) :=
+  match Sweep.normalise (kw.map (·.2.length)) with
+  | none => none
+  | some ns => some ((List.range ns).map fun i =>
+      psolve sched ⟨kw.map fun kv => (kv.1, ((Sweep.bcast ns kv.2)[i]?).getD default)⟩ t)
 
 mutual
 /-- the dictionary that reaches the object at the end of a path of child positions (none if the path leaves the tree) -/
